@@ -130,13 +130,21 @@ def run_check(v, binary, ID):
     return rc, viol, sigs, out
 
 
-def do_check(files):
+def do_check(files, recheck=False):
     v = setup_check()
     for f in files:
         rows = [l.rstrip('\n').split('\t') for l in open('%s/%s.filter.tsv' % (OUT, f))]
+        if recheck:
+            # only the mutants that survived an earlier run (against an older state of the checks)
+            surv = set()
+            for l in open('%s/%s.result.tsv' % (OUT, f)):
+                p = l.rstrip('\n').split('\t')
+                if p[3] == 'SURVIVED':
+                    surv.add(p[0])
+            rows = [r for r in rows if r[0] in surv]
         orig = open(SRC + '/' + f).read()
         done = {}
-        resf = '%s/%s.result.tsv' % (OUT, f)
+        resf = '%s/%s.%s.tsv' % (OUT, f, 'recheck' if recheck else 'result')
         if os.path.exists(resf):
             for l in open(resf):
                 p = l.rstrip('\n').split('\t')
@@ -203,5 +211,7 @@ if __name__ == '__main__':
         do_filter(sys.argv[2:])
     elif sys.argv[1] == 'check':
         do_check(sys.argv[2:])
+    elif sys.argv[1] == 'recheck':
+        do_check(sys.argv[2:], recheck=True)
     else:
         report()
